@@ -74,7 +74,7 @@ def declare_heap_keys(reg):
 
 def run_native(code, timeout=120, args=()):
     """run a python snippet against the real code in /repo under the interpreter the test-suite uses"""
-    env = dict(os.environ, PYTHONPATH=extract.REPO + os.pathsep + HERE, PYTHONHASHSEED=os.environ.get('PYTHONHASHSEED', '0'))
+    env = dict(os.environ, VERIF_HOME=HERE, PYTHONPATH=extract.REPO + os.pathsep + HERE, PYTHONHASHSEED=os.environ.get('PYTHONHASHSEED', '0'))
     try:
         p = subprocess.run([NATIVE_PY, '-c', code] + list(args), capture_output=True, text=True, timeout=timeout, cwd=extract.REPO, env=env)
     except subprocess.TimeoutExpired:
